@@ -628,7 +628,7 @@ class PortNamespace(collections.abc.MutableMapping, Port):
         breadcrumbs_local = (*breadcrumbs, self.name)
         message: Optional[str]
 
-        if not port_values:
+        if port_values is None or port_values is UNSPECIFIED:
             port_values = {}
 
         if not isinstance(port_values, collections.abc.Mapping):
@@ -701,9 +701,10 @@ class PortNamespace(collections.abc.MutableMapping, Port):
             else:
                 port_value = port_values[name]
 
-            if isinstance(port, PortNamespace):
+            if isinstance(port, PortNamespace) and isinstance(port_value, collections.abc.Mapping):
                 port_values[name] = port.pre_process(port_value)
             else:
+                # A value that is not a mapping cannot be pre-processed as a namespace: ``validate`` will reject it
                 port_values[name] = port_value
 
         return AttributesFrozendict(port_values)
